@@ -1,6 +1,7 @@
 """C13 - spectrum arithmetic is pointwise, commutative and unit-agnostic."""
 import itertools, random
 from fractions import Fraction
+import numpy as rnp
 
 EXPLANATION = ('C13: Spectrum binary operators on an enumerated family of exact-rational wavelength grids (identical, nested, partially overlapping, '
                'touching, disjoint; uniform and non-uniform) with symbolic values, fill value and scalar/vector operands, in every pair of wavelength units; '
@@ -37,6 +38,9 @@ def configs(tier, seed):
             for other in ('scalar', 'vector'):
                 out.append({'a': a, 'b': a, 'op': op, 'sampling': 'min', 'ua': 'nm', 'ub': 'nm', 'other': other})
     out.append({'a': 'u3', 'b': 'shift', 'op': 'multiply', 'sampling': 'min', 'ua': 'um', 'ub': 'um', 'other': 'spectrum'})
+    for a, b in (('u3', 'fine'), ('u2', 'odd'), ('nonuni', 'nonuni4')):
+        for op in ('add', 'multiply'):
+            out.append({'a': a, 'b': b, 'op': op, 'sampling': 'min', 'ua': 'nm', 'ub': 'nm', 'other': 'spectrum', 'intvalues': True})
     return out, len(out), False
 
 
@@ -62,10 +66,16 @@ def run(W, cfg):
     nz = cfg['op'] == 'divide'
     va = [W.real(f'va{k}') for k in range(len(ga))]
     vb = [W.real(f'vb{k}', pos=nz) for k in range(len(gb))]
+    if cfg.get('intvalues'):
+        # integer-valued spectra (e.g. a 0/1 filter curve given as ints): values are data, the fill value stays symbolic
+        va = [(3 * k + 1) % 4 for k in range(len(ga))]
+        vb = [(k + 1) % 3 for k in range(len(gb))]
     fill = W.real('fill', pos=nz)
     num = (lambda q: q) if W.sym else float
 
     def mk(grid, vals, unit):
+        if cfg.get('intvalues'):
+            return R.Spectrum(W.array([W.const(g / TO_NM[unit]) for g in grid]), rnp.array(list(vals), dtype=int), waveunit=unit)
         return R.Spectrum(W.array([W.const(g / TO_NM[unit]) for g in grid]), W.array(list(vals)), waveunit=unit)
 
     sa = mk(ga, va, ua)
